@@ -126,8 +126,8 @@ example :
             mk .UnaryOp (tc 16) [.str "*", mk .ID (tc 16) [.str "b"]]]]]]]]]) := by
   let prog : List Ext :=
     [.fdefp { specs := [("INT", "int")],
-              fd := { x := "add", params := .named { first := { specs := [("INT", "int")], d := .name "a" },
-                                                     more := [{ specs := [("CONST", "const"), ("INT", "int")], d := .ptr [[]] (.name "b") }] } },
+              fd := { x := "add", params := .named { first := .named { specs := [("INT", "int")], d := .name "a" },
+                                                     more := [.named { specs := [("CONST", "const"), ("INT", "int")], d := .ptr [[]] (.name "b") }] } },
               body := .cons (.ret (some (.bin "PLUS" "+" (.id "a") (.pre "TIMES" "*" (.id "b"))))) .nil }]
   have hint : SpecToks false [("INT", "int")] := by simp [SpecToks, typeSpecSimple]
   have hval : SpecVals [("INT", "int")] := by
@@ -194,8 +194,8 @@ example :
         .none, .none]]]) := by
   let prog : List Ext :=
     [.proto { specs := [("EXTERN", "extern"), ("INT", "int")],
-              fd := { x := "add", params := .named { first := { specs := [("INT", "int")], d := .name "a" },
-                                                     more := [{ specs := [("CONST", "const"), ("INT", "int")], d := .ptr [[]] (.name "b") }] } },
+              fd := { x := "add", params := .named { first := .named { specs := [("INT", "int")], d := .name "a" },
+                                                     more := [.named { specs := [("CONST", "const"), ("INT", "int")], d := .ptr [[]] (.name "b") }] } },
               more := [] }]
   have hint : SpecToks false [("INT", "int")] := by simp [SpecToks, typeSpecSimple]
   have hval : SpecVals [("INT", "int")] := by
@@ -211,6 +211,41 @@ example :
       refine ⟨by simp [SpecToks, quals3, typeSpecSimple, isTypeTok], ?_, rfl, .ptr _ _ (by simp) (by simp) (.name _) rfl⟩
       intro t ht; simp only [List.mem_cons, List.not_mem_nil, or_false] at ht
       rcases ht with rfl | rfl <;> exact ⟨by decide, by decide⟩
+  exact parse_translation_unit prog hw 200 (by decide)
+
+open PycModel.DeclSkel PycModel.DeclParse PycModel.TransUnit PycModel.Params in
+/-- non-vacuity, unnamed parameters, checked by the kernel: `int f ( int , const char * ) ;` -/
+example :
+    (parseCore 200 ([("INT", "int"), ("ID", "f"), ("LPAREN", "("), ("INT", "int"), ("COMMA", ","),
+        ("CONST", "const"), ("CHAR", "char"), ("TIMES", "*"), ("RPAREN", ")"), ("SEMI", ";")].map (fun t => SEv.tok t.1 t.2) ++
+        [.eof])).1 =
+    .ast (mk .FileAST none [.list [
+      mk .Decl (tc 1) [.str "f", .list [], .list [], .list [], .list [],
+        mk .FuncDecl (tc 1) [
+          mk .ParamList (tc 3) [.list [
+            mk .Typename (tc 3) [.none, .list [], .none,
+              mk .TypeDecl none [.none, .list [], .none, mk .IdentifierType (tc 3) [.list [.str "int"]]]],
+            mk .Typename (tc 5) [.none, .list [.str "const"], .none,
+              mk .PtrDecl (tc 7) [.list [],
+                mk .TypeDecl none [.none, .list [.str "const"], .none, mk .IdentifierType (tc 6) [.list [.str "char"]]]]]]],
+          mk .TypeDecl (tc 1) [.str "f", .list [], .none, mk .IdentifierType (tc 0) [.list [.str "int"]]]],
+        .none, .none]]]) := by
+  let prog : List Ext :=
+    [.proto { specs := [("INT", "int")],
+              fd := { x := "f", params := .named { first := .unnamed { specs := [("INT", "int")], stars := [] },
+                                                   more := [.unnamed { specs := [("CONST", "const"), ("CHAR", "char")], stars := [[]] }] } },
+              more := [] }]
+  have hint : SpecToks false [("INT", "int")] := by simp [SpecToks, typeSpecSimple]
+  have hval : SpecVals [("INT", "int")] := by
+    intro t ht; simp only [List.mem_singleton] at ht; subst ht; exact ⟨by decide, by decide⟩
+  have hw : ∀ e ∈ prog, WFExt (fun _ => false) e := by
+    intro e he
+    simp only [prog, List.mem_singleton] at he
+    subst he
+    refine ⟨hint, hval, rfl, ⟨⟨hint, rfl, (by intro q h; cases h), fun _ _ _ => rfl⟩, ?_⟩, by intro it h; cases h⟩
+    intro p hp; simp only [List.mem_singleton] at hp; subst hp
+    exact ⟨by simp [SpecToks, quals3, typeSpecSimple, isTypeTok], rfl,
+      (by intro q h t ht; simp only [List.mem_singleton] at h; subst h; cases ht), fun _ _ _ => rfl⟩
   exact parse_translation_unit prog hw 200 (by decide)
 
 end PycModel.C01
